@@ -5,14 +5,24 @@ import os
 import time
 
 import vlib
+import model_sweep
 from vlib import ToolError, log
+
+# Layer M runs attached to a property: (family, N, L, stride quick, stride thorough, use_shortcuts, invariants)
+MODEL_PLAN = {
+    "C01": [("tri", 2, 840, 24, 1, True, ["M_ResultRegion", "M_EventBound", "M_NoPanic"]), ("pair", 2, 840, 4000, 150, True, ["M_ResultRegion", "M_NoPanic"])],
+    "C02": [("nest2", 2, 840, 6, 1, True, ["M_Nesting", "M_ResultRegion", "M_NoPanic"]), ("nest", 3, 1, 60, 4, True, ["M_Nesting", "M_NoPanic"])],
+    "C03": [("quad", 2, 840, 120, 8, True, ["M_EventBound", "M_NoPanic"]), ("pairB", 2, 840, 3000, 300, True, ["M_EventBound", "M_NoPanic"])],
+    "C04": [("quad", 2, 840, 150, 12, True, ["M_Provenance", "M_NoPanic"])],
+    "C09": [("tri", 2, 840, 40, 3, False, ["M_ResultRegion", "M_NoPanic"]), ("nest2", 2, 840, 12, 2, False, ["M_ResultRegion", "M_Nesting"])],
+}
 
 PROPS = ["C01", "C02", "C03", "C04", "C05", "C06", "C07", "C08", "C09", "C10", "C11", "C12"]
 
-EXACT = "cx,rect,cxmix,cxshift,rectw"
-ROUND = "aff-cx,aff-cxmix,aff-cxshift,aff-rect"
+EXACT = "cx,rect,cxmix,cxshift,rectw,cxabut,cxsub,frames"
+ROUND = "aff-cx,aff-cxmix,aff-cxshift,aff-rect,aff-cxabut,aff-cxsub,lat"
 ALLF = EXACT + "," + ROUND
-SHARED = "cx,rect,cx,cxshift,cxmix,aff-cx,rectw"      # weighted towards shared boundary segments
+SHARED = "cx,rect,cxabut,cxsub,cxshift,cxmix,aff-cx,rectw,frames,aff-cxabut,frames,lat"      # weighted towards shared boundary segments
 
 
 def ops(kind, fams, count, kmax=3, max_edges=120):
@@ -38,6 +48,7 @@ def plan(prop, tier):
         "C02": [("nesting", {"C02"}, "any", "release",
                  [corpus("fixed_findings.ndjson"), corpus("hand.ndjson"),
                   ops("single", SHARED, 600 if q else 5000, 3 if q else 4, 120 if q else 160),
+                  ops("single", "cxabut,cxsub,rect,cxabut", 400 if q else 4000, 5, 220),   # larger regions: holes above shared segments
                   tri(2, 840, 3 if q else 1, 1)] + ([] if q else [ops("single", "cx,rect", 600, 6, 260)]))],
         "C04": [("provenance", {"C04"}, "any", "release",
                  [corpus("fixed_findings.ndjson"), corpus("hand.ndjson"),
@@ -64,7 +75,8 @@ def plan(prop, tier):
         "C11": [("chains", {"C11", "C03", "C02"}, "any", "release",
                  [ops("chain", EXACT, 120 if q else 1000, 3, 90), ops("chain3", EXACT, 40 if q else 500, 2, 60)])],
         "C12": [("purity", {"C12"}, "any", "release",
-                 [ops("pure", ALLF, 60 if q else 500, 3, 120), ops("repr", EXACT, 20 if q else 100, 3, 90)])],
+                 [ops("pure", ALLF, 60 if q else 500, 3, 120), ops("repr", EXACT, 20 if q else 100, 3, 90),
+                  ops("history", "cx,cxmix,cxshift,aff-cx", 8 if q else 60, 4, 200)])],
         "C03": [("returns-release", {"C03"}, "any", "release",
                  [corpus("fixed_findings.ndjson"), corpus("hand.ndjson"),
                   ops("single", ALLF, 400 if q else 4000, 3 if q else 5, 140 if q else 240),
@@ -179,6 +191,15 @@ def run(prop, tier, seed, t0):
         per_step.append({"step": label, "laws": sorted(laws), "onlyF": onlyf, "profile": profile, "sessions": len(sessions),
                          "tlc_distinct_states": res["distinct"], "tlc_seconds": round(res["seconds"], 1)})
     nviol, nknown = report(prop, fails_by_step, known)
+    layer_m = []
+    for mi, (fam, n, l, sq, st, sc, invs) in enumerate(MODEL_PLAN.get(prop, [])):
+        stride = sq if tier == "quick" else st
+        r = model_sweep.model_and_replay(prop, os.path.join(vlib.OUT, prop, "model-%d-%s" % (mi, fam)), family=fam, n=n, l=l, stride=stride,
+                                         offset=(seed * 7 + mi) % stride, use_shortcuts=sc, invs=invs + ["M_StatusLineSorted"], replay=sc, timeout=10000)
+        r.update({"family": fam, "lattice": n + 1, "scale": l, "stride": stride, "use_shortcuts": sc, "invariants": invs})
+        layer_m.append(r)
+        tot_gen += r["transitions"]
+        tot_dist += r["states"]
     big_events = []
     if prop == "C03":
         # structured large inputs in child processes: must return (no abort / panic / budget overrun)
@@ -218,6 +239,9 @@ def run(prop, tier, seed, t0):
         "rule": "a case is one real library call (operands, operation, trait pairing, float type) inside a recorded session; distinct = distinct canonical hash of operands+call shape; non-trivial = the sweep ran and processed more events than twice the number of input edges, i.e. at least one edge was split at an intersection, touch or overlap",
         "sessions_by_family": fams, "steps": per_step, "known_findings_hit": nknown,
         "exhaustive": False, "large_scenarios": big_events,
+        "layer_m": [{k: v for k, v in r.items() if k != "labels"} for r in layer_m],
+        "layer_m_branch_labels": {k: v for r in layer_m for k, v in r["labels"].items()},
+        "spec_drift": sum(r["drift"] for r in layer_m),
     }
     vlib.write_evidence(prop, tier, seed, "model_checking", cov, time.time() - t0, nviol, ASSUME)
     log("[%s] %s: %d calls in %d sessions validated by TLC, %d violations, %d known findings, %.0fs" % (
